@@ -2,14 +2,14 @@
     [satisfies] over unions of intervals; closure of [wf] under the operations (hence
     over arbitrary compositions); the prerelease gate across [intersect]. *)
 From Semver Require Import Version VersionOrder Range Interval SetOps.
-From Coq Require Import Lia.
+From Coq Require Import Lia Btauto.
 Set Default Timeout 120.
 
 Lemma existsb_flat_map {A B} (f : A -> list B) (p : B -> bool) l :
   existsb p (flat_map f l) = existsb (fun a => existsb p (f a)) l.
 Proof. induction l as [|a l IH]; cbn; auto. now rewrite existsb_app, IH. Qed.
 Lemma existsb_ext {A} (p q : A -> bool) l : (forall a, In a l -> p a = q a) -> existsb p l = existsb q l.
-Proof. induction l as [|a l IH]; cbn; auto. intro H. rewrite H, IH; auto. intros; apply H; auto. Qed.
+Proof. induction l as [|a l IH]; cbn; auto. intro H. rewrite (H a) by (now left). rewrite IH; auto; intros; apply H; now right. Qed.
 Lemma existsb_andb_const {A} (p : A -> bool) c l : existsb (fun a => c && p a) l = c && existsb p l.
 Proof. induction l as [|a l IH]; cbn. - now rewrite andb_false_r. - rewrite IH. destruct c; reflexivity. Qed.
 
@@ -47,8 +47,8 @@ Theorem r_intersect_list_wf A B : wf A -> wf B -> wf (r_intersect_list A B).
 Proof.
   intros WA WB. unfold r_intersect_list. apply wf_flat_map. intros a Ha. apply wf_flat_map. intros b Hb.
   unfold wf in *. rewrite Forall_forall in WA, WB.
-  destruct (bs_intersect a b) eqn:E; cbn; constructor; [|constructor].
-  eapply bs_intersect_wf; eauto.
+  destruct (bs_intersect a b) eqn:E; cbn; [|constructor].
+  constructor; [|constructor]. apply (bs_intersect_wf a b); auto.
 Qed.
 
 Definition opt_range (o : option range) : range := match o with Some r => r | None => [] end.
@@ -64,39 +64,43 @@ Theorem r_intersect_none A B v : wf A -> wf B -> r_intersect A B = None -> r_wit
 Proof. intros WA WB H. rewrite <- r_intersect_within by assumption. now rewrite H. Qed.
 
 (** ** allows_any *)
+Definition isnil {A} (l : list A) : bool := match l with [] => true | _ => false end.
+Lemma isnil_app {A} (l1 l2 : list A) : isnil (l1 ++ l2) = isnil l1 && isnil l2.
+Proof. destruct l1; reflexivity. Qed.
+Lemma existsb_isnil_flat_map {A B} (f : A -> bool) (g : A -> list B) l :
+  (forall a, In a l -> f a = negb (isnil (g a))) -> existsb f l = negb (isnil (flat_map g l)).
+Proof.
+  induction l as [|a l IH]; cbn; intros H; auto.
+  rewrite isnil_app, negb_andb, <- IH, (H a) by (intros; auto); auto.
+Qed.
+Lemma is_some_nonempty {A} (l : list A) : is_some (nonempty l) = negb (isnil l).
+Proof. destruct l; reflexivity. Qed.
+
 Theorem r_allows_any_intersect A B : wf A -> wf B -> r_allows_any A B = is_some (r_intersect A B).
 Proof.
   intros WA WB. unfold r_allows_any, r_intersect, r_intersect_list.
-  assert (E : forall l : list boundset, is_some (nonempty l) = negb (match l with [] => true | _ => false end))
-    by (destruct l; reflexivity).
-  rewrite E. clear E.
-  induction A as [|a A IH]; cbn; auto. inversion WA; subst.
-  rewrite IH by assumption. clear IH.
-  match goal with |- _ || ?x = _ => generalize x; intro rest end.
-  assert (E : existsb (fun that => bs_allows_any a that) B =
-              negb (match flat_map (fun righty => opt_to_list (bs_intersect a righty)) B with [] => true | _ => false end)).
-  { induction B as [|b B IHB]; cbn; auto. inversion WB; subst.
-    rewrite IHB by assumption. rewrite bs_allows_any_intersect by assumption.
-    destruct (bs_intersect a b); cbn; reflexivity. }
-  rewrite E.
-  destruct (flat_map (fun righty => opt_to_list (bs_intersect a righty)) B); cbn; auto.
-  destruct rest; cbn in *.
-  - destruct (flat_map _ A); reflexivity.
-  - destruct (flat_map _ A); [discriminate|reflexivity].
+  etransitivity; [|symmetry; apply (@is_some_nonempty boundset)].
+  unfold wf in *. rewrite Forall_forall in WA, WB.
+  apply existsb_isnil_flat_map. intros a Ha.
+  apply existsb_isnil_flat_map. intros b Hb.
+  rewrite bs_allows_any_intersect by auto. destruct (bs_intersect a b); reflexivity.
 Qed.
 
 Lemma bs_allows_any_sym a b : bs_allows_any a b = bs_allows_any b a.
 Proof. unfold bs_allows_any. destruct (blt (bs_upper b) (bs_lower a)), (blt (bs_upper a) (bs_lower b)); reflexivity. Qed.
+Lemma existsb_swap {A B} (f : A -> B -> bool) la lb :
+  existsb (fun a => existsb (fun b => f a b) lb) la = existsb (fun b => existsb (fun a => f a b) la) lb.
+Proof.
+  apply eq_true_iff_eq. rewrite !existsb_exists. split.
+  - intros (a & Ha & H). apply existsb_exists in H as (b & Hb & H). exists b. split; auto.
+    apply existsb_exists. eauto.
+  - intros (b & Hb & H). apply existsb_exists in H as (a & Ha & H). exists a. split; auto.
+    apply existsb_exists. eauto.
+Qed.
 Theorem r_allows_any_sym A B : r_allows_any A B = r_allows_any B A.
 Proof.
-  unfold r_allows_any. induction A as [|a A IH]; cbn.
-  - induction B; cbn; auto.
-  - rewrite IH. clear IH. induction B as [|b B IHB]; cbn; [now rewrite orb_false_r|].
-    rewrite <- IHB. rewrite (bs_allows_any_sym a b).
-    destruct (bs_allows_any b a), (existsb (fun that => bs_allows_any a that) B),
-      (existsb (fun that => bs_allows_any that a) B); cbn; auto;
-    destruct (existsb (fun this => existsb (fun that => bs_allows_any this that) B) A); cbn; auto;
-    destruct (existsb (fun that => bs_allows_any that b) A); cbn; auto.
+  unfold r_allows_any. rewrite existsb_swap. apply existsb_ext. intros b _.
+  apply existsb_ext. intros a _. apply bs_allows_any_sym.
 Qed.
 
 (** ** allows_all *)
@@ -123,7 +127,7 @@ Lemma cut_pieces_spec ps righty : wf ps -> wf_bs righty ->
     forall v, within_list r v = within_list ps v && negb (within righty v).
 Proof.
   intros Wps Wr. induction ps as [|p ps IH]; cbn.
-  - exists []. repeat split; [constructor|]. reflexivity.
+  - exists []. split; [reflexivity|]. split; [constructor|]. reflexivity.
   - inversion Wps; subst.
     destruct (bs_difference_spec p righty) as (d & Hd & Hw & Hwf & _); auto.
     destruct IH as (rest & Hrest & Wrest & Hrw); auto.
@@ -132,8 +136,8 @@ Proof.
     + destruct d; [apply wf_app|]; auto.
     + intro v. specialize (Hw v). specialize (Hrw v).
       destruct d as [l|]; cbn in *.
-      * rewrite within_list_app, Hw, Hrw. destruct (within p v), (negb (within righty v)), (within_list ps v); reflexivity.
-      * rewrite Hrw. rewrite <- Hw. reflexivity.
+      * rewrite within_list_app, Hw, Hrw. unfold within_list. btauto.
+      * rewrite Hrw. unfold within_list. rewrite andb_orb_distrib_l, <- Hw. reflexivity.
 Qed.
 
 Lemma cut_all_spec other : forall ps, wf ps -> wf other ->
@@ -141,13 +145,13 @@ Lemma cut_all_spec other : forall ps, wf ps -> wf other ->
     forall v, within_list r v = within_list ps v && negb (r_within other v).
 Proof.
   induction other as [|righty other IH]; intros ps Wps Wo; cbn.
-  - exists ps. repeat split; auto. intro v. now rewrite andb_true_r.
-  - inversion Wo; subst.
-    destruct (cut_pieces_spec ps righty) as (r1 & H1 & W1 & S1); auto.
-    destruct (IH r1) as (r2 & H2 & W2 & S2); auto.
-    rewrite H1. cbn. rewrite H2. exists r2. repeat split; auto.
+  - exists ps. split; [reflexivity|]. split; [assumption|]. intro v. now rewrite andb_true_r.
+  - inversion Wo as [|? ? Wr Wo']; subst.
+    destruct (cut_pieces_spec ps righty) as (r1 & E1 & W1 & S1); auto.
+    destruct (IH r1) as (r2 & E2 & W2 & S2); auto.
+    rewrite E1. cbn. rewrite E2. exists r2. split; [reflexivity|]. split; [assumption|].
     intro v. rewrite S2, S1. unfold r_within.
-    destruct (within_list ps v), (within righty v), (existsb (fun bs => within bs v) other); reflexivity.
+    btauto.
 Qed.
 
 Theorem r_difference_list_spec A B : wf A -> wf B ->
@@ -155,13 +159,13 @@ Theorem r_difference_list_spec A B : wf A -> wf B ->
     forall v, r_within r v = r_within A v && negb (r_within B v).
 Proof.
   intros WA WB. induction A as [|a A IH]; cbn.
-  - exists []. repeat split; [constructor|]. reflexivity.
-  - inversion WA; subst.
-    destruct (cut_all_spec B [a]) as (r1 & H1 & W1 & S1); auto. { repeat constructor; assumption. }
-    destruct IH as (r2 & H2 & W2 & S2); auto.
-    rewrite H1. cbn. rewrite H2. cbn. exists (r1 ++ r2). repeat split; [now apply wf_app|].
+  - exists []. split; [reflexivity|]. split; [constructor|]. reflexivity.
+  - inversion WA as [|? ? Wa WA']; subst.
+    destruct (cut_all_spec B [a]) as (r1 & E1 & W1 & S1); auto. { constructor; [assumption|constructor]. }
+    destruct IH as (r2 & E2 & W2 & S2); auto.
+    rewrite E1. cbn. rewrite E2. cbn. exists (r1 ++ r2). split; [reflexivity|]. split; [now apply wf_app|].
     intro v. rewrite r_within_eq, within_list_app, S1. rewrite <- r_within_eq, S2. cbn. rewrite orb_false_r.
-    destruct (within a v), (r_within B v), (r_within A v); reflexivity.
+    unfold r_within. btauto.
 Qed.
 
 Theorem r_difference_spec A B : wf A -> wf B ->
@@ -219,7 +223,6 @@ Proof.
     pose proof (max_version_le l1 l2 w1 w2 H1 H2 B1 B2 E) as L12.
     pose proof (lower_ok_version l2 w2 v H2 B2 O2) as L2v.
     destruct (sandwich w1 w2 v) as [S P]; auto using same_tuple_p_sym.
-    split; auto using same_tuple_p_sym.
   - (* l2 unbounded cannot be the max of a bounded l1 *)
     exfalso. destruct l1 as [[]|]; try discriminate; destruct l2 as [[]|]; try discriminate;
       cbn in B1, B2; try discriminate; unfold bmax, blt, bcmp in E; cbn in E; discriminate.
@@ -251,7 +254,6 @@ Proof.
     pose proof (max_version_le' l1 l2 w1 w2 H1 H2 B1 B2 E) as L21.
     pose proof (lower_ok_version l1 w1 v H1 B1 O1) as L1v.
     destruct (sandwich w2 w1 v) as [S P]; auto using same_tuple_p_sym.
-    split; auto using same_tuple_p_sym.
   - exfalso. destruct l1 as [[]|]; try discriminate; destruct l2 as [[]|]; try discriminate;
       cbn in B1, B2; try discriminate; unfold bmax, blt, bcmp in E; cbn in E;
       repeat match goal with H : context [if ?c then _ else _] |- _ => destruct c end; discriminate.
